@@ -100,12 +100,20 @@ pub fn lits() -> &'static Lits {
 /// literal in 16..=2000 and its neighbours (limits and guards are written as literals)
 pub fn depth_tail(r: &mut Rng) -> usize {
     let mut c: Vec<usize> = vec![20, 33, 63, 64, 65, 100, 127, 128, 129, 130, 200, 255, 256, 257, 258, 300, 400, 511, 512, 513, 1000];
+    let mut big: Vec<usize> = vec![2049, 4097];
     for v in lits().ints.iter() {
-        if *v >= 16 && *v <= 2000 {
+        if *v >= 16 && *v <= 1100 {
             c.push(*v as usize);
+        } else if *v > 1100 && *v <= 4200 {
+            big.push(*v as usize);
         }
     }
-    *r.pick(&c)
+    // the expensive depths (cost grows faster than linearly) one time in eight
+    if r.chance(1, 8) {
+        *r.pick(&big)
+    } else {
+        *r.pick(&c)
+    }
 }
 
 /// wrap `inner` into `d` nested lists, leaving a sibling atom behind at some levels on the way out
